@@ -1,5 +1,7 @@
-// program generator for c19: nested calls (depth <= 4), loops, closures, early returns, blocks with locals,
-// breakpoints ("break" and _ = "break").  Every function body and loop body starts with emit(K), every
+// program generator for c19: nested calls (depth <= 4), loops, closures, early returns (also `return v + callee(..)`),
+// blocks with locals, breakpoints ("break" and _ = "break"), deferred calls (compiled function, interpreted named
+// function, closure; registered at function level and inside blocks; run one call level deeper after the position-less
+// epilogue of the return statement or at the end of a body without return), panic + recover in a deferred closure.  Every function body and loop body starts with emit(K), every
 // function ends with `return`, so any re-execution of the same code slot has an emit in between.
 package main
 
@@ -16,6 +18,8 @@ type prog struct {
 	Call  string `json:"call"`
 	NBp   int    `json:"-"`
 	Top   bool   `json:"top,omitempty"` // Call is a top-level statement list (executed at call depth 0)
+	NDefer int   `json:"-"`
+	NPanic int   `json:"-"`
 }
 
 type gen struct {
@@ -28,6 +32,9 @@ type gen struct {
 	bpProb int
 	nclos  int
 	void   []bool // function has no result and no trailing return (falls off the end of its body)
+	ndefer int    // defer statements written
+	npanic int    // conditional panics written (always recovered by a deferred closure of the same function)
+	pre    strings.Builder // helper functions (targets of `defer name(args)`), written before the functions
 }
 
 func (g *gen) label() int { g.k++; return g.k }
@@ -104,10 +111,16 @@ func (g *gen) stmt(fi, lvl, ind int, inClosure bool) {
 			g.sb.WriteString(g.ind(ind+1) + "return a\n")
 		} else if g.void[fi] {
 			g.sb.WriteString(g.ind(ind+1) + "return\n")
+		} else if fi+1 < g.nfun && !g.void[fi+1] && r.Chance(1, 2) {
+			// the return expression calls a function: `finish` in the callee comes back to the epilogue of this return
+			g.sb.WriteString(g.ind(ind+1) + fmt.Sprintf("return v + %s(v%%%d)\n", g.fname(fi+1), 2+r.Intn(3)))
 		} else {
 			g.sb.WriteString(g.ind(ind+1) + "return v\n")
 		}
 		w("}")
+	case x < 88 && !inClosure:
+		// a defer registered inside a block / loop / branch
+		g.deferStmt(fi, ind, false)
 	case x < 91:
 		w("{")
 		g.sb.WriteString(g.ind(ind+1) + fmt.Sprintf("w := v + %d\n", r.Intn(9)))
@@ -140,6 +153,52 @@ func (g *gen) stmt(fi, lvl, ind int, inClosure bool) {
 	}
 }
 
+// deferStmt writes one defer statement of function fi.  The deferred code starts with an emit (so that re-executions of a
+// code slot are told apart) and runs at call depth (depth of fi)+1, or deeper when it calls pNf<j>, j > fi.
+func (g *gen) deferStmt(fi, ind int, recovers bool) {
+	r := g.r
+	t := g.ind(ind)
+	g.ndefer++
+	body := func(ind2 int) {
+		t2 := g.ind(ind2)
+		for k := r.Intn(3); k > 0; k-- {
+			switch x := r.Intn(10); {
+			case x < 4:
+				fmt.Fprintf(&g.sb, "%semit(%d)\n", t2, g.label())
+			case x < 6 && fi+1 < g.nfun:
+				fmt.Fprintf(&g.sb, "%s%s(%d)\n", t2, g.fname(fi+1+r.Intn(g.nfun-fi-1)), r.Intn(5))
+			case x < 7 && g.bpProb > 0:
+				g.nbp++
+				fmt.Fprintf(&g.sb, "%s\"break\"\n", t2)
+			default:
+				fmt.Fprintf(&g.sb, "%semit(1000 + v%%100)\n", t2)
+			}
+		}
+	}
+	switch x := r.Intn(10); {
+	case recovers:
+		fmt.Fprintf(&g.sb, "%sdefer func() {\n%s\temit(%d)\n%s\tif e := recover(); e != nil {\n%s\t\temit(%d)\n%s\t}\n", t, t, g.label(), t, t, g.label(), t)
+		body(ind + 1)
+		fmt.Fprintf(&g.sb, "%s}()\n", t)
+	case x < 2:
+		// compiled function: no interpreted statement runs
+		fmt.Fprintf(&g.sb, "%sdefer emit(%d)\n", t, g.label())
+	case x < 5:
+		// interpreted named function, argument evaluated at the defer statement
+		name := fmt.Sprintf("p%dd%d", g.pid, g.label())
+		fmt.Fprintf(&g.pre, "func %s(x int) {\n\temit(%d)\n\temit(1000 + x%%100)\n", name, g.label())
+		if r.Bool() {
+			fmt.Fprintf(&g.pre, "\tif x%%2 == 0 {\n\t\temit(%d)\n\t}\n", g.label())
+		}
+		g.pre.WriteString("}\n")
+		fmt.Fprintf(&g.sb, "%sdefer %s(v %% 9)\n", t, name)
+	default:
+		fmt.Fprintf(&g.sb, "%sdefer func() {\n%s\temit(%d)\n", t, t, g.label())
+		body(ind + 1)
+		fmt.Fprintf(&g.sb, "%s}()\n", t)
+	}
+}
+
 // genProg: functions p<id>f0..f<n-1>; fi calls only fj with j > i (call depth <= n <= 4)
 func genProg(r *vh.Rng, pid int) *prog {
 	g := &gen{r: r, pid: pid, nfun: 1 + r.Intn(4), bpProb: []int{0, 3, 6, 10}[r.Intn(4)]}
@@ -155,6 +214,17 @@ func genProg(r *vh.Rng, pid int) *prog {
 			fmt.Fprintf(&g.sb, "func %s(x int) int {\n", g.fname(fi))
 		}
 		fmt.Fprintf(&g.sb, "\temit(%d)\n\tv := x\n", g.label())
+		if r.Chance(1, 2) {
+			recovers := r.Chance(1, 3)
+			for k := 1 + r.Intn(2); k > 0; k-- {
+				g.deferStmt(fi, 1, recovers && k == 1)
+			}
+			if recovers {
+				// recovered by the deferred closure written last (it runs first)
+				g.npanic++
+				fmt.Fprintf(&g.sb, "\tif v%%%d == %d {\n\t\temit(%d)\n\t\tpanic(\"p%d\")\n\t}\n", 2+r.Intn(3), r.Intn(2), g.label(), g.k)
+			}
+		}
 		// longer bodies near the top so that callers have > 14 statements after a call (polling of the fast loop)
 		n := 2 + r.Intn(6)
 		if r.Chance(1, 3) {
@@ -167,6 +237,8 @@ func genProg(r *vh.Rng, pid int) *prog {
 		}
 		if g.void[fi] {
 			g.sb.WriteString("}\n")
+		} else if fi+1 < g.nfun && !g.void[fi+1] && r.Chance(1, 4) {
+			fmt.Fprintf(&g.sb, "\treturn v + %s(v%%%d)\n}\n", g.fname(fi+1), 2+r.Intn(3))
 		} else {
 			g.sb.WriteString("\treturn v\n}\n")
 		}
@@ -177,5 +249,5 @@ func genProg(r *vh.Rng, pid int) *prog {
 		// top-level statement list: executed by an exec loop at call depth 0 that ends without a return statement
 		call = fmt.Sprintf("emit(9001); t%dv := %s; emit(9002); t%dv %% 1000", pid, call, pid)
 	}
-	return &prog{ID: pid, Decls: g.sb.String(), Call: call, NBp: g.nbp, Top: top}
+	return &prog{ID: pid, Decls: g.pre.String() + g.sb.String(), Call: call, NBp: g.nbp, Top: top, NDefer: g.ndefer, NPanic: g.npanic}
 }
